@@ -244,7 +244,7 @@ public:
             }
             for (int k = 0; k < n; k++)
             {
-                static const char kinds[] = "sskhiuldbppccgfxnmzryaHAWNQF";
+                static const char kinds[] = "sskhiuldbppccgfxnmzryaHAWNQFE";
                 char kd = kinds[rng.below(sizeof kinds - 1)];
                 if (strchr("cgfnmryaN", kd) && !lazy_ok)
                     kd = 's';
@@ -919,8 +919,17 @@ public:
                 for (size_t si = 0; si < g.stmts.size(); si++)
                 {
                     const Stmt& s = g.stmts[si];
-                    if (!s.begun || !s.ended || s.noid || s.threw || s.fmts.size() != 1)
+                    if (!s.begun || !s.ended || s.noid || s.threw || s.sev < MIN || s.fmts.size() > 1)
                         continue;
+                    if (s.fmts.empty())
+                    {
+                        // never formatted: lost if every threshold state it lived through accepts it
+                        bool any_true = false, any_false = false;
+                        for (auto& th : s.th_states)
+                            (ref_eval(le.expr, th.data(), s.sev, s.tag) ? any_true : any_false) = true;
+                        if (!any_true || any_false)
+                            continue;
+                    }
                     std::string id = stmt_id(s.thread, static_cast<int>(si));
                     int n = 0;
                     for (auto& r : recs)
@@ -928,7 +937,7 @@ public:
                             ++n;
                     if (n == 0)
                         return flag("C09/lost", sk + " dev=" + d.nm + " end-to-end", s.op,
-                                    "statement " + id + " was emitted once but no record on the device begins with its identification");
+                                    "statement " + id + (s.fmts.empty() ? " is accepted by the filter but" : " was emitted once but") + " no record on the device begins with its identification");
                     if (n > 1)
                         return flag("C09/duplicate", sk + " dev=" + d.nm + " end-to-end", s.op,
                                     "statement " + id + " was emitted once but " + std::to_string(n) + " records on the device begin with its identification");
@@ -939,6 +948,9 @@ public:
             return flag("C10/ill-formed", std::string("item=") + (g.unavailable_item == 'f' ? "callable-returning-const-char*" : g.unavailable_item == 'g' ? "std::function" : "function-object-or-lambda"),
                         -1, "streaming this kind of lazily evaluated callable into a log statement no longer compiles");
         // C10 type clause (a compile-time fact the simulation only reads)
+        if (!LS_MIN_AFTER_HEADER)
+            flag("C10/stream-type", "minimum-defined-after-another-log-header", -1,
+                 "with NITRO_LOG_MIN_SEVERITY defined after <nitro/log/severity.hpp> but before <nitro/log/log.hpp>, statements below that minimum do not have the empty stream type (or those at it do)");
         for (int sev = 0; sev < 6; sev++)
         {
             if (sev < MIN && !le.null_type[sev])
@@ -1001,7 +1013,7 @@ public:
             }
             bool any_true = false, any_false = false;
             for (auto& th : s.th_states)
-                (ref_eval(le.expr, th.data(), s.sev) ? any_true : any_false) = true;
+                (ref_eval(le.expr, th.data(), s.sev, s.tag) ? any_true : any_false) = true;
             bool ambiguous = any_true && any_false;
             if (ambiguous)
                 f_flip_ambiguous++;
